@@ -542,6 +542,59 @@ def build_case(c, rng):
             'timeout': 150}
 
 
+# ------------------------------------------------------------------ symbolic element values
+SYM_FAMILIES = [fam_series_rlc, fam_parallel_rlc, fam_rc, fam_rl, fam_tf, fam_vccs, fam_ccvs, fam_cccs, fam_two_sources]
+SYM_PATTERNS = ['real2', 'cpx', 'cpx_slow', 'imag']      # distinct natural frequencies: the generic closed form is defined at the point
+
+
+def symbolize(c, rng):
+    """symbolic twin of a generated circuit: the values of R, L, C (always) and the positive initial conditions
+    (sometimes) become symbols; returns (netlist lines, {symbol name: value at the generator's point}).
+    Lcapy's symbols are positive, so only positive values are substituted (the closed form may use sqrt(x**2) = x)."""
+    lines, subs = [], {}
+    for e, ln in zip(c.elts, c.lines):
+        t, nm = e['type'], e['name']
+        n = ' '.join(e['nodes'])
+        if t == 'R':
+            subs[nm] = fs(e['R'])
+            lines.append('%s %s %s' % (nm, n, nm))
+        elif t in ('C', 'L'):
+            subs[nm] = fs(e[t])
+            ic = e.get('v0' if t == 'C' else 'i0')
+            if ic is None:
+                lines.append('%s %s %s' % (nm, n, nm))
+            elif ic > 0 and rng.random() < 0.7:
+                sn = ('v0' if t == 'C' else 'i0') + nm
+                subs[sn] = fs(ic)
+                lines.append('%s %s %s %s' % (nm, n, nm, sn))
+            else:
+                lines.append('%s %s %s %s' % (nm, n, nm, val(ic)))
+        else:
+            lines.append(ln)
+    return lines, subs
+
+
+def gen_symbolic_cases(rng, tier):
+    """circuits solved by Lcapy with SYMBOLIC element values; the returned closed forms (time and s-domain) are specialised
+    at the rational point the generator derived from the chosen natural frequencies and then go through the same in-Coq
+    comparison, in-Coq law check and exact oracle as the numeric circuits (laws written with the values of the point)"""
+    n = int(os.environ.get('VERIF_NSYM', 10 if tier == 'quick' else 96))
+    out = []
+    kinds = [k for k in SRC_ALL if k not in ('tpow', 'tpowexp')]
+    for i in range(n):
+        fam = SYM_FAMILIES[i % len(SYM_FAMILIES)]
+        pat = SYM_PATTERNS[(i + i // len(SYM_FAMILIES)) % len(SYM_PATTERNS)]
+        skind = rng.choice(kinds) if rng.random() < 0.85 else rng.choice(['dc', 'ac'])
+        icp = [0.0, 0.7, 0.4][i % 3]
+        c = fam(rng, pat, mk_source(rng, skind), icp)
+        case = build_case(c, rng)
+        case['netlist'], case['subs'] = symbolize(c, rng)
+        case['numeric_netlist'] = c.lines
+        case['tags'] = list(case['tags']) + ['symbolic']
+        out.append(case)
+    return out
+
+
 def expected_mode(case):
     """flag model input: which bookkeeping the analysis must use (hand model of Analysis / _analysis_groups / MNA._solve)"""
     gen = case['gen']
@@ -1119,7 +1172,9 @@ def classify_circuit(case, wr, codes, oracle_bad, meta):
         if b.get('undecided'):
             continue        # a constant outside the exactly decidable class is not evidence of a violation (counted in the histogram)
         li = b.get('law', -1)
-        if delayed_ivp:
+        if b.get('key'):
+            out.append((b['key'] + ':' + '+'.join(t for t in tags if t != 'corpus'), b['what'], True))
+        elif delayed_ivp:
             out.append((KEY_DELAY_IVP, b['what'], True))
         elif f10:
             out.append((KEY_F10, b['what'], True))
@@ -1318,6 +1373,7 @@ def run(tier='quick', replay=None):
             cases = [rc]
         else:
             cases = corpus_cases(rng) + gen_cases(rng, tier)
+            cases += gen_symbolic_cases(random.Random(core.seed() * 104729 + 5), tier)
             try:
                 before_op = TW.SwitchTranslation(core.REPO).before
             except Exception:
@@ -1382,6 +1438,26 @@ def run(tier='quick', replay=None):
                     res.count('quantity_error:' + q_['error'].split(':')[0][:30])
                 elif not usable(q_):
                     res.count('quantity_unparsed')
+            if 'subs' in c:
+                for qi_, q_ in enumerate(r.get('q', [])):
+                    if q_.get('undefined_at_point'):
+                        if q_.get('regular_point') is True:
+                            # the natural frequencies keep their generic multiplicities at this point: the closed form must be defined
+                            orc[i].append({'law': -1, 'q': qi_, 'key': 'symbolic:undefined-at-regular-point',
+                                           'what': 'the closed form Lcapy returns for symbolic element values, %s(%s) = %s, is undefined (nan/zoo) at %s although no two poles of its s-domain value coincide there'
+                                                   % (c['quants'][qi_]['kind'], c['quants'][qi_]['name'], (q_.get('symbolic_time_text') or '')[:160], c['subs'])})
+                        elif q_.get('regular_point') is False:
+                            res.count('symbolic_degenerate_point_skipped')
+                        else:
+                            res.count('symbolic_point_regularity_unknown')
+                res.count('symbolic_circuits')
+                res.count('symbolic_quantities_compared', usable_q)
+                res.count('symbolic_laws_checked_in_coq', len(meta['laws_used']))
+                res.count('symbolic_quantities_not_comparable_at_point', sum(1 for q_ in r.get('q', []) if 'error' not in q_ and not usable(q_)))
+                if usable_q and len([x for x in res.samples if 'symbolic_netlist' in x]) < 2:
+                    qq = r['q'][meta['q_used'][-1]]
+                    res.samples.append({'symbolic_netlist': c['netlist'], 'point': c['subs'], 'quantity': c['quants'][meta['q_used'][-1]],
+                                        'lcapy_symbolic_time': qq.get('symbolic_time_text'), 'at_point': qq.get('time_text')})
             for st in c['gen']['src_tags']:
                 res.count('source_' + st)
             res.count('mode_' + expected_mode(c))
